@@ -41,6 +41,17 @@ def known_arities():
     return _arity
 
 
+_krec = None
+
+
+def known_records():
+    global _krec
+    if _krec is None:
+        p = os.path.join(os.path.dirname(os.path.abspath(__file__)), "known_records.json")
+        _krec = set(json.load(open(p))) if os.path.exists(p) else None
+    return _krec
+
+
 def anchor_index(raw_functions):
     """uq -> True when the unit holds an overload of that name whose arity is a known one."""
     ka = known_arities()
@@ -122,6 +133,8 @@ def inlinable_calls(unit, fn, fd, force=None):
                     continue
             elif n["k"] == "CallExpr" and cal.get("static"):
                 pass        # a new static member function (of this class or of a base) is a free function in disguise
+            elif n["k"] == "CXXMemberCallExpr" and _object_of(fd, n) is not None and tgt.get("cls") == fd["_objs"][_object_of(fd, n)]["cls"]:
+                pass        # a method of a NEW class called on a local object of that class: spliced with `this` rebound
             else:
                 if tgt.get("clsqn") != fd.get("clsqn") and tgt.get("clsqn") != fd.get("lexclsqn"):
                     continue
@@ -138,7 +151,106 @@ def inlinable_calls(unit, fn, fd, force=None):
     return out
 
 
-def inline_once(unit, fd, bid, idx, call_id, tgt, instance, skip=0):
+def _strip_idx(nodes, i):
+    hops = 0
+    while i is not None and nodes[i].get("k") in ("ImplicitCastExpr", "ParenExpr") and nodes[i].get("c") and hops < 8:
+        i, hops = nodes[i]["c"][0], hops + 1
+    return i
+
+
+def _object_of(fd, call):
+    """decl id of the scalarised local object a member call is made on, or None"""
+    objs = fd.get("_objs")
+    if not objs or call.get("obj") is None:
+        return None
+    o = fd["nodes"][_strip_idx(fd["nodes"], call["obj"])]
+    if o.get("k") == "DeclRefExpr" and o.get("d") in objs:
+        return o["d"]
+    return None
+
+
+def find_local_objects(unit, fd, records):
+    """Local variables of a NEW class type (a record whose name is not in the frozen list) that are only ever used as the
+    object of calls to that class's own member functions (bodies available): {decl id: {cls, name, fields}}.  Such an
+    object is scalar-replaced: constructor and member calls are spliced in with `this` rebound to the object, and its
+    fields become pseudo locals -- so a set of lambdas over a few locals that was turned into a small helper struct reads
+    like the lambdas again."""
+    kr = known_records()
+    if kr is None:
+        return {}
+    nodes = fd["nodes"]
+    new_recs = {r["uq"]: r for r in records if r["uq"] not in kr and not r.get("lambda")}
+    if not new_recs:
+        return {}
+    cands = {}
+    for n in nodes:
+        if n.get("k") == "DeclStmt":
+            for d in n.get("decls", []):
+                if d.get("rt") in new_recs and "init" in d:
+                    ini = nodes[_strip_idx(nodes, d["init"])]
+                    if ini.get("k") == "CXXConstructExpr" and ini.get("callee") and ini["callee"].get("did") in unit.raw_by_did \
+                            and unit.raw_by_did[ini["callee"]["did"]].get("blocks"):
+                        cands[d["d"]] = {"cls": d["rt"], "name": d.get("n", "obj"), "ctor_call": ini["i"], "rec": new_recs[d["rt"]]}
+    if not cands:
+        return {}
+    allowed = set()
+    for n in nodes:
+        if n.get("k") == "CXXMemberCallExpr" and n.get("obj") is not None and n.get("callee"):
+            o = nodes[_strip_idx(nodes, n["obj"])]
+            if o.get("k") == "DeclRefExpr" and o.get("d") in cands and n["callee"].get("cls") == cands[o["d"]]["cls"]:
+                t = unit.raw_by_did.get(n["callee"].get("did"))
+                if t is not None and t.get("blocks"):
+                    allowed.add(o["i"])
+    for n in nodes:
+        if n.get("k") == "DeclRefExpr" and n.get("d") in cands and n["i"] not in allowed:
+            cands.pop(n["d"], None)         # escapes (address taken, copied, passed on): left alone
+    return cands
+
+
+_pseudo_next = [1_900_000_000]
+
+
+def _pseudo(fd, obj, field):
+    m = fd.setdefault("_pseudo", {})
+    key = "%d.%s" % (obj, field)
+    if key not in m:
+        _pseudo_next[0] += 1
+        m[key] = _pseudo_next[0]
+    return m[key]
+
+
+def _rebind_this(fd, new_nodes, obj, info):
+    """In freshly spliced callee nodes: this->F becomes the pseudo local of field F of the object, a bare `this` becomes
+    the object, constructor initialisers become declarations of the pseudo locals (a reference field is an alias)."""
+    nodes = fd["nodes"]
+    ftypes = {fl["n"]: fl.get("t", "") for fl in info["rec"].get("fields", [])}
+    for n in new_nodes:
+        if n.get("k") == "MemberExpr" and n.get("mk") == "Field" and n.get("c"):
+            b = nodes[_strip_idx(nodes, n["c"][0])]
+            if b.get("k") == "CXXThisExpr" or (b.get("k") == "DeclRefExpr" and b.get("this_of") == obj):
+                fld = n.get("m")
+                for k_ in ("m", "md", "mk", "arrow", "mc"):
+                    n.pop(k_, None)
+                n.update({"k": "DeclRefExpr", "c": [], "d": _pseudo(fd, obj, fld), "n": "%s.%s" % (info["name"], fld), "dk": "Var",
+                          "local": True, "lv": True, "field_of": obj})
+    for n in new_nodes:
+        if n.get("k") == "CXXThisExpr":
+            n.update({"k": "DeclRefExpr", "c": [], "d": obj, "n": info["name"], "dk": "Var", "local": True, "lv": True, "this_of": obj})
+        elif n.get("k") == "CtorInit" and n.get("field") and n.get("fieldcls") == info["cls"] and n.get("init") is not None:
+            fld, ft = n["field"], ftypes.get(n["field"], "")
+            pid = _pseudo(fd, obj, fld)
+            init = n["init"]
+            if nodes[init].get("k") == "InitListExpr" and len(nodes[init].get("c", [])) == 1:
+                init = nodes[init]["c"][0]          # `_f{e}`: the braces of a member initialiser
+            for k_ in ("field", "fieldcls", "md", "implicit"):
+                n.pop(k_, None)
+            if ft.rstrip().endswith("&"):
+                n.update({"k": "ParamBind", "d": pid, "n": "%s.%s" % (info["name"], fld), "t": ft, "init": init, "c": []})
+            else:
+                n.update({"k": "DeclStmt", "c": [init], "decls": [{"d": pid, "n": "%s.%s" % (info["name"], fld), "t": ft, "init": init}]})
+
+
+def inline_once(unit, fd, bid, idx, call_id, tgt, instance, skip=0, this_obj=None):
     nodes = fd["nodes"]
     noff = len(nodes)
     call = nodes[call_id]
@@ -158,6 +270,8 @@ def inline_once(unit, fd, bid, idx, call_id, tgt, instance, skip=0):
             if "val" in n:
                 rets.append(n["val"])
     nodes.extend(new_nodes)
+    if this_obj is not None:
+        _rebind_this(fd, new_nodes, this_obj, fd["_objs"][this_obj])
     # parameter bindings
     binds = []
     args = call.get("args", [])[skip:]
@@ -271,22 +385,41 @@ def inline_unit(unit_json):
     u.raw_by_did = originals        # always splice pristine callee bodies (nested helpers are inlined on the next pass)
     inlined_into = set()
     instance = 0
+    obj_classes = set()
     for fd in unit_json["functions"]:
         if not fd.get("blocks"):
             continue
-        for _round in range(24):
+        fd["_objs"] = find_local_objects(u, fd, unit_json.get("records", []))
+        for obj, info in list(fd["_objs"].items()):
+            # the constructor first: its initialisers declare the pseudo locals
+            where = None
+            for b in fd["blocks"]:
+                if info["ctor_call"] in b["elems"]:
+                    where = (b["id"], b["elems"].index(info["ctor_call"]))
+            ct = u.raw_by_did[fd["nodes"][info["ctor_call"]]["callee"]["did"]]
+            if where is None:
+                fd["_objs"].pop(obj)
+                continue
+            instance += 1
+            inline_once(u, fd, where[0], where[1], info["ctor_call"], ct, instance, 0, this_obj=obj)
+            inlined_into.add(ct["did"])
+            obj_classes.add(info["cls"])
+        for _round in range(48 if fd["_objs"] else 24):
             calls = inlinable_calls(u, None, fd)
             if not calls:
                 break
             # one at a time: indices shift after a splice
             bid, idx, call_id, tgt, skip = calls[0]
             instance += 1
-            inline_once(u, fd, bid, idx, call_id, tgt, instance, skip)
+            inline_once(u, fd, bid, idx, call_id, tgt, instance, skip, this_obj=_object_of(fd, fd["nodes"][call_id]))
             inlined_into.add(tgt["did"])
     kn = known_functions()
     drop = set()
     for did in inlined_into:
         f = originals[did]
+        if f.get("cls") in obj_classes and is_new_helper(f, u.anchor_idx):
+            drop.add(did)
+            continue
         if is_new_helper(f, u.anchor_idx) and (f.get("access") in ("private", "protected") or f.get("lambda") or f.get("kind") == "func"):
             drop.add(did)
     return drop
@@ -304,6 +437,7 @@ def inline_variant(unit, fn, select, rounds=24):
     u.raw_by_did = {f.d["did"]: f.d for f in unit.functions}
     u.anchor_idx = anchor_index(u.raw_by_did.values())
     fd = copy.deepcopy(fn.d)
+    fd.setdefault("_objs", {})
     instance = 500
     for _round in range(rounds):
         calls = inlinable_calls(u, None, fd, force=select)
